@@ -54,8 +54,12 @@ func (j *XformJob) call(slot uint32, piece []byte, closed bool) cserve.Cmd {
 
 func (j *XformJob) finish(slot uint32) []cserve.Cmd {
 	j.state = 2
-	if j.OutMode == OutBytes {
+	switch j.OutMode {
+	case OutBytes:
 		return []cserve.Cmd{cserve.Get(slot, cserve.GetDst)}
+	case OutAuto:
+		// one round trip: hash, length and the first SmallOut+1 bytes (used only when that is all there is)
+		return []cserve.Cmd{cserve.Hash(slot), cserve.Get(slot, cserve.GetInfo), cserve.GetRange(slot, cserve.GetDst, 0, SmallOut+1)}
 	}
 	return []cserve.Cmd{cserve.Hash(slot), cserve.Get(slot, cserve.GetInfo)}
 }
@@ -165,9 +169,8 @@ func (j *XformJob) Next(slot uint32, prev []cserve.Result) []cserve.Cmd {
 			if len(prev[1].Data) >= 48 {
 				j.Out.OutLen = le64(prev[1].Data[40:])
 			}
-			if j.OutMode == OutAuto && j.Out.OutLen <= SmallOut {
-				j.state = 3
-				return []cserve.Cmd{cserve.Get(slot, cserve.GetDst)}
+			if j.OutMode == OutAuto && len(prev) > 2 && prev[2].Total <= SmallOut {
+				j.Out.Out = prev[2].Data
 			}
 		}
 		j.state = 99
